@@ -291,7 +291,17 @@ class Executor(Evaluator):
                 v = as_int(self.eval(args[0], st))
                 return abs(v) if isinstance(v, int) else z3.If(v >= 0, v, -v)
             if name == "int":
-                return as_int(self.eval(args[0], st))
+                v = self.eval(args[0], st)
+                if isinstance(v, tuple) and len(v) == 3 and v[0] == "frac":
+                    a, b = v[1], v[2]
+                    if isinstance(a, int) and isinstance(b, int) and b != 0:
+                        return int(a / b)
+                    self.oblige(st, "div", "nonzero", b != 0)
+                    aa = z3.If(zint(a) >= 0, zint(a), -zint(a))
+                    bb = z3.If(zint(b) >= 0, zint(b), -zint(b))
+                    q = aa / bb
+                    return z3.If((zint(a) >= 0) == (zint(b) > 0), q, -q)
+                return as_int(v)
             if name == "bool":
                 return truth(self.eval(args[0], st))
             if name in ("range", "enumerate"):
